@@ -3,7 +3,7 @@ import FormulaicVerif.Model.ContrastsCache
 each use is answered by a stand-alone `encode_contrasts(data, contrasts, levels=…, reduced_rank=r)`
 on the original data — no memory of earlier uses. The first failing use aborts. -/
 namespace FormulaicVerif.Spec.ContrastsCache
-open FormulaicVerif.Model.Contrasts FormulaicVerif.Model.ContrastsCache
+open FormulaicVerif.Model.Contrasts FormulaicVerif.Model.ContrastsExt FormulaicVerif.Model.ContrastsCache
 
 /-- the categories the factor is encoded with: the explicit `levels=` or the sorted distinct values -/
 def categories (f : Factor) : List Label :=
@@ -12,7 +12,7 @@ def categories (f : Factor) : List Label :=
   | none => inferLevels f.data
 
 def direct (f : Factor) (q : Request) : Except MErr Encoded :=
-  match encodeContrasts f.data f.contrast f.levels q.reduced f.output with
+  match xEncodeContrasts f.data f.contrast f.levels q.reduced f.output with
   | .ok (e, _) => .ok e
   | .error e => .error (.encode e)
 
